@@ -1,7 +1,9 @@
 package dicescript
 
 import (
+	"bytes"
 	"strings"
+	"unicode"
 	"unicode/utf8"
 )
 
@@ -129,6 +131,13 @@ func (s *CustomDiceStream) ReadExpr(entry string) (*VMValue, bool, error) {
 	}
 
 	consumed := parser.pt.offset
+	if consumed <= 0 {
+		return nil, false, nil
+	}
+
+	// 表达式后面被语法吞掉的空白/换行不属于这个操作数: 留给外层语法处理，否则 Current()
+	// (交给 handler 的匹配文本、计算过程里的原文)会带上后面的空白 ("R(1+2) 理由" 得到 "R(1+2) ")
+	consumed = len(bytes.TrimRightFunc(s.data[absStart:absStart+consumed], unicode.IsSpace))
 	if consumed <= 0 {
 		return nil, false, nil
 	}
